@@ -42,6 +42,13 @@ def extra_grid():
     for ma, mb in gen.twin_makers():
         ps += [ma(), mb(), ma()]
         ps += [gen.mk("or", ma(), ma()), gen.mk("or", ma(), mb()), gen.mk("and", mb(), ma()), gen.mk("and", mb(), mb())]
+    # variables that differ only in their current value (what __call__ returns)
+    try:
+        ps += [NamedPredicate(name="a", v=True), NamedPredicate(name="a", v=False), NamedPredicate(name="a", v=True)]
+    except TypeError:
+        va, vb = NamedPredicate(name="a"), NamedPredicate(name="a")
+        va.v, vb.v = True, False
+        ps += [va, vb]
     # classes with list-/object-valued parameters
     import re as _re
     from predicate.standard_predicates import is_dict_of_p, is_int_p, is_str_p, is_tuple_of_p, has_key_p
